@@ -153,7 +153,7 @@ func CheckC10(c *Ctx) {
 			return a
 		}
 		// (1) exhaustive per metric x base value x Modified value x direction on many backgrounds
-		nbg := c.Pick(400, 8000)
+		nbg := c.Pick(400, 20000)
 		c.Parallel("override-matrix-"+v.Name, nbg*len(mods), 8, func(w *Worker, i int) {
 			bg := background(w.R, i/len(mods))
 			mod := mods[i%len(mods)]
@@ -189,7 +189,7 @@ func CheckC10(c *Ctx) {
 			w.Count("matrix:" + v.Metrics[mod].Abv)
 		})
 		// (2) random sibling groups: full normalisation, defaults spelled out, env-only changes, supplemental
-		c.Parallel("random-siblings-"+v.Name, c.Pick(1_000_000, 15_000_000), 2048, func(w *Worker, i int) {
+		c.Parallel("random-siblings-"+v.Name, c.Pick(1_000_000, 50_000_000), 2048, func(w *Worker, i int) {
 			r := w.R
 			ref := background(r, r.Intn(12))
 			var sibs []sib
@@ -487,7 +487,7 @@ func CheckC12(c *Ctx) {
 				}
 			}
 		}
-		c.Parallel("raw-steps-"+v.Name, c.Pick(1_000_000, 20_000_000), 2048, func(w *Worker, i int) {
+		c.Parallel("raw-steps-"+v.Name, c.Pick(1_000_000, 80_000_000), 2048, func(w *Worker, i int) {
 			r := w.R
 			a := gen.MixedAssign(r, v)
 			m := steppable[r.Intn(len(steppable))]
